@@ -109,7 +109,7 @@ theorem jpy_class_inv {proj : Project} {rank : List Nat} (wf : WFacts proj rank)
 
 theorem def_static {proj : Project} {A : Site} {b : List Stmt} {st : Stmt} {y : Name} (hb : siteBody proj A = some b)
     (hst : st ∈ b) (hd : st.defName = some y) : StaticSite proj (A.1, A.2 ++ [y]) :=
-  ⟨siteBody_lt hb, Or.inr ⟨A.2, y, b, st, rfl, hb, hst, hd⟩⟩
+  ⟨(siteBody_lt hb : A.1 < proj.length), Or.inr ⟨A.2, y, b, st, rfl, hb, hst, hd⟩⟩
 
 theorem def_last (proj : Project) (A : Site) (y : Name) : (sitePath proj (A.1, A.2 ++ [y])).getLast? = some y := by
   simp [sitePath, ← List.append_assoc]
@@ -296,5 +296,281 @@ theorem AbsDenI.fun {proj : Project} {rank : List Nat} (wf : WFacts proj rank) (
   · exact absurd h0 hne'
   · exact absurd h0' hne
   · exact jpyI_fun wf ciu hj hj'
+
+end Imports
+
+/-! ## Python: what `pyDenotes` answers is a `JpyI` derivation (no `pyOwn` needed) -/
+
+namespace Imports
+open Registry
+open PyImp
+
+theorem getAttr_jI {proj : Project} {s : PyImp.St} (hI : PyInv proj s) {v0 v1 : Val} {sv0 : SVal} {y : Name}
+    (hs : svalV s v0 = some sv0) (h : getAttr s v0 y = some v1) :
+    ∃ sv1, svalV s v1 = some sv1 ∧ Step proj false (scopeOf sv0) y sv1 := by
+  cases v0 with
+  | mod t =>
+    simp only [svalV, Option.some.injEq] at hs; subst hs
+    obtain ⟨sv1, h1, h2⟩ := hI.mods t y v1 h
+    exact ⟨sv1, h1, Or.inl h2⟩
+  | obj m cp => simp [getAttr] at h
+  | cls hh =>
+    simp only [svalV] at hs
+    cases hc : s.heap[hh]? with
+    | none => simp [hc] at hs
+    | some co =>
+      simp only [hc, Option.map_some, Option.some.injEq] at hs; subst hs
+      simp only [getAttr] at h
+      cases hm : PyImp.mroOf s hh with
+      | none => simp [hm] at h
+      | some l =>
+        simp only [hm] at h
+        obtain ⟨b, _, hb⟩ := List.exists_of_findSome?_eq_some h
+        cases hcb : s.heap[b]? with
+        | none => simp [hcb] at hb
+        | some cb =>
+          simp only [hcb] at hb
+          obtain ⟨sv1, h1, h2⟩ := hI.heap b cb hcb y v1 hb
+          exact ⟨sv1, h1, Or.inr ⟨rfl, hI.cls hh co hc, (cb.mod, cb.cp), hI.cls b cb hcb, h2⟩⟩
+
+theorem getAttrs_jI {proj : Project} {s : PyImp.St} (hI : PyInv proj s) :
+    ∀ (ys : List Name) (v0 v : Val) (sv0 : SVal), svalV s v0 = some sv0 → getAttrs s v0 ys = some v → ys ≠ [] →
+      ∃ sv, svalV s v = some sv ∧ JpyI proj false (scopeOf sv0) ys sv
+  | [], _, _, _, _, _, hne => absurd rfl hne
+  | [y], v0, v, sv0, hs, h, _ => by
+    simp only [getAttrs] at h
+    cases ha : getAttr s v0 y with
+    | none => simp [ha] at h
+    | some w =>
+      simp only [ha, getAttrs, Option.some.injEq] at h; subst h
+      obtain ⟨sv, h1, h2⟩ := getAttr_jI hI hs ha
+      exact ⟨sv, h1, .one h2⟩
+  | y :: y2 :: ys, v0, v, sv0, hs, h, _ => by
+    simp only [getAttrs] at h
+    cases ha : getAttr s v0 y with
+    | none => simp [ha] at h
+    | some w =>
+      simp only [ha] at h
+      obtain ⟨sw, hsw, hjw⟩ := getAttr_jI hI hs ha
+      obtain ⟨sv, hsv, hj⟩ := getAttrs_jI hI (y2 :: ys) w v sw hsw h (by simp)
+      exact ⟨sv, hsv, .cons hjw hj⟩
+
+theorem denoteIn_jI {proj : Project} {s : PyImp.St} (hI : PyInv proj s) {S : Site} {ns : Ns} (hns : NsOk proj s S ns)
+    {name : Path} {v : Val} (h : denoteIn s ns name = some v) :
+    ∃ sv, svalV s v = some sv ∧ JpyI proj true S name sv := by
+  cases name with
+  | nil => simp [denoteIn] at h
+  | cons x rest =>
+    simp only [denoteIn] at h
+    cases hd : dget ns x with
+    | none => simp [hd] at h
+    | some v0 =>
+      simp only [hd] at h
+      obtain ⟨sv0, hs0, hj0⟩ := hns x v0 hd
+      cases rest with
+      | nil => simp only [getAttrs, Option.some.injEq] at h; subst h; exact ⟨sv0, hs0, .one (Or.inl hj0)⟩
+      | cons y ys =>
+        obtain ⟨sv, hsv, hj⟩ := getAttrs_jI hI (y :: ys) v0 v sv0 hs0 h (by simp)
+        exact ⟨sv, hsv, .cons (Or.inl hj0) hj⟩
+
+/-- **what Python's run answers is derivable**, inherited attribute steps included -/
+theorem pyDenotes_jI {proj : Project} {rank : List Nat} (wf : WFacts proj rank) {order : List Nat} {m : Nat}
+    {cp : List Name} {name : Path} {id : Ident} (h : pyDenotes proj order m cp name = some id) :
+    ∃ S sv, ((cp = [] ∧ S = (m, [])) ∨ (cp ≠ [] ∧ Jpy proj (m, []) cp (.dfn S.1 S.2))) ∧
+      JpyI proj true S name sv ∧ identSV proj sv = id := by
+  have hI := run_py_ok wf order
+  unfold pyDenotes denoteAt at h
+  generalize PyImp.run proj order = s at hI h
+  split at h
+  · cases h
+  · cases hw : walkNs s (nsOf s m) cp with
+    | none => simp [hw] at h
+    | some ns =>
+      simp only [hw] at h
+      cases hd : denoteIn s ns name with
+      | none => simp [hd] at h
+      | some v =>
+        simp only [hd] at h
+        obtain ⟨S, hns, hcase⟩ := walkNs_j hI cp _ ns (m, []) (hI.mods m) hw
+        obtain ⟨sv, hsv, hj⟩ := denoteIn_jI hI hns hd
+        rw [identOf_sval hsv] at h
+        injection h with h
+        exact ⟨S, sv, hcase, hj, h⟩
+
+end Imports
+
+/-! ## the members of pydoctor's linearisations are class objects -/
+
+namespace Imports
+open Registry
+
+theorem pick_mem (ls : List (List Nat)) : ∀ (hs : List (Option Nat)) (h : Nat), Mro.pick ls hs = some h → some h ∈ hs
+  | [], _, hp => by simp [Mro.pick] at hp
+  | none :: hs, h, hp => by
+    simp only [Mro.pick] at hp
+    exact List.mem_cons_of_mem _ (pick_mem ls hs h hp)
+  | some a :: hs, h, hp => by
+    simp only [Mro.pick] at hp
+    split at hp
+    · exact List.mem_cons_of_mem _ (pick_mem ls hs h hp)
+    · injection hp with hp; subst hp; exact List.mem_cons_self ..
+
+theorem pop_subset (x : Nat) : ∀ (l : List Nat) (a : Nat), a ∈ Mro.pop x l → a ∈ l
+  | [], _, h => by simp [Mro.pop] at h
+  | h :: t, a, ha => by
+    simp only [Mro.pop] at ha
+    split at ha
+    · exact List.mem_cons_of_mem _ ha
+    · exact ha
+
+theorem mergeFuel_mem' : ∀ (f : Nat) (ls : List (List Nat)) (out : List Nat),
+    Mro.mergeFuel f ls = some out → ∀ x ∈ out, ∃ l ∈ ls, x ∈ l
+  | 0, _, _, h => by simp [Mro.mergeFuel] at h
+  | f+1, ls, out, h => by
+    intro x hx
+    simp only [Mro.mergeFuel] at h
+    split at h
+    · injection h with h; subst h; cases hx
+    · cases hp : Mro.pick ls (ls.map Mro.head) with
+      | none => simp [hp] at h
+      | some hd =>
+        simp only [hp] at h
+        cases hm : Mro.mergeFuel f (Mro.remove hd ls) with
+        | none => simp [hm] at h
+        | some out' =>
+          simp only [hm, Option.map_some, Option.some.injEq] at h; subst h
+          rcases List.mem_cons.1 hx with rfl | hx'
+          · have := pick_mem ls _ _ hp
+            obtain ⟨l, hl, hh⟩ := List.mem_map.1 this
+            refine ⟨l, hl, ?_⟩
+            unfold Mro.head at hh
+            exact List.mem_of_mem_head? hh
+          · obtain ⟨l', hl', hxl⟩ := mergeFuel_mem' f _ _ hm x hx'
+            simp only [Mro.remove, List.mem_map] at hl'
+            obtain ⟨l, hl, rfl⟩ := hl'
+            exact ⟨l, hl, pop_subset _ l x hxl⟩
+
+theorem mapOpt_mem {α β : Type} (g : α → Option β) : ∀ (xs : List α) (ys : List β), Mro.mapOpt g xs = some ys →
+    ∀ y ∈ ys, ∃ x ∈ xs, g x = some y
+  | [], ys, h, y, hy => by simp only [Mro.mapOpt, Option.some.injEq] at h; subst h; cases hy
+  | x :: xs, ys, h, y, hy => by
+    simp only [Mro.mapOpt] at h
+    cases hg : g x with
+    | none => simp [hg] at h
+    | some y0 =>
+      simp only [hg] at h
+      cases hm : Mro.mapOpt g xs with
+      | none => simp [hm] at h
+      | some ys0 =>
+        simp only [hm, Option.some.injEq] at h; subst h
+        rcases List.mem_cons.1 hy with rfl | hy'
+        · exact ⟨x, List.mem_cons_self .., hg⟩
+        · obtain ⟨x', hx', hgx⟩ := mapOpt_mem g xs ys0 hm y hy'
+          exact ⟨x', List.mem_cons_of_mem _ hx', hgx⟩
+
+/-- a member of a linearisation is the class itself or a base of some class -/
+theorem mroFuel_mem' (bases : Nat → List Nat) : ∀ (f c : Nat) (l : List Nat), Mro.mroFuel bases f c = some l →
+    ∀ x ∈ l, x = c ∨ ∃ d, x ∈ bases d
+  | 0, _, _, h => by simp [Mro.mroFuel] at h
+  | f+1, c, l, h => by
+    intro x hx
+    simp only [Mro.mroFuel] at h
+    split at h
+    · injection h with h; subst h
+      simp only [List.mem_singleton] at hx; exact Or.inl hx
+    · cases hm : Mro.mapOpt (Mro.mroFuel bases f) (bases c) with
+      | none => simp [hm] at h
+      | some lins =>
+        simp only [hm] at h
+        cases hp : Mro.merge (lins ++ [bases c]) with
+        | none => simp [hp] at h
+        | some t =>
+          simp only [hp, Option.map_some, Option.some.injEq] at h; subst h
+          rcases List.mem_cons.1 hx with rfl | hx'
+          · exact Or.inl rfl
+          · right
+            obtain ⟨l', hl', hxl⟩ := mergeFuel_mem' _ _ _ hp x hx'
+            rcases List.mem_append.1 hl' with hl' | hl'
+            · obtain ⟨b, hb, hfb⟩ := mapOpt_mem _ _ _ hm l' hl'
+              rcases mroFuel_mem' bases f b l' hfb x hxl with rfl | hd
+              · exact ⟨c, hb⟩
+              · exact hd
+            · simp only [List.mem_singleton] at hl'; subst hl'
+              exact ⟨c, hxl⟩
+
+theorem allbasesFuel_mem (bases : Nat → List Nat) (ext : Nat → Bool) : ∀ (f c x : Nat),
+    x ∈ Mro.allbasesFuel bases ext f c → x = c ∨ ∃ d, x ∈ bases d
+  | 0, _, _, h => by simp [Mro.allbasesFuel] at h
+  | f+1, c, x, h => by
+    simp only [Mro.allbasesFuel, List.mem_cons, List.mem_flatMap, List.mem_filter] at h
+    rcases h with h | ⟨b, ⟨hb, _⟩, hx⟩
+    · exact Or.inl h
+    · right
+      rcases allbasesFuel_mem bases ext f b x hx with rfl | hd
+      · exact ⟨c, hb⟩
+      · exact hd
+
+/-- the final bases of a class are class objects -/
+theorem finalBases_class {proj : Project} {s : St} (hI : PdInv proj s) {c b : Nat} (hb : b ∈ finalBases s c) :
+    ∃ o : Obj, s.reg.objs[b]? = some o ∧ o.cls = .cls := by
+  have hcls : ∀ b, isClassObj s.reg b = true → ∃ o : Obj, s.reg.objs[b]? = some o ∧ o.cls = .cls := by
+    intro b hcl
+    unfold isClassObj at hcl
+    cases hg : getObj s.reg b with
+    | none => simp [hg] at hcl
+    | some o =>
+      simp only [hg, beq_iff_eq] at hcl
+      exact ⟨o, hg, hcl⟩
+  unfold finalBases at hb
+  cases hd : dget s.cinfo c with
+  | none => simp [hd] at hb
+  | some ci =>
+    simp only [hd, List.mem_filterMap] at hb
+    obtain ⟨x, hx, hxb⟩ := hb
+    cases hx2 : x.2 with
+    | some b' =>
+      simp only [hx2, Option.some.injEq] at hxb; subst hxb
+      have hmem : some b' ∈ ci.objs := by
+        have := (List.of_mem_zip (show (x.1, x.2) ∈ _ from hx)).2
+        rw [hx2] at this; exact this
+      exact hI.cbase (c, ci) (mem_of_dget hd) b' hmem
+    | none =>
+      simp only [hx2] at hxb
+      split at hxb
+      · rename_i b0 hb0
+        injection hxb with hxb; subst hxb
+        split at hb0
+        · split at hb0
+          · rename_i hcl; injection hb0 with hb0; subst hb0; exact hcls _ hcl
+          · cases hb0
+        · cases hb0
+      · split at hxb
+        · split at hxb
+          · rename_i hcl; injection hxb with hxb; subst hxb; exact hcls _ hcl
+          · cases hxb
+        · cases hxb
+
+/-- **every member of a final linearisation other than the class itself is a class object** -/
+theorem mro_member_class {proj : Project} {s : St} (hI : PdInv proj s) {i b : Nat}
+    (hb : b ∈ Names.mroOf (finalEnv s) i) : b = i ∨ ∃ o : Obj, s.reg.objs[b]? = some o ∧ o.cls = .cls := by
+  unfold Names.mroOf finalEnv at hb
+  simp only at hb
+  cases hd : dget (finalMro s) i with
+  | none => simp [hd] at hb; exact Or.inl hb
+  | some v =>
+    unfold finalMro at hd
+    have := dget_map_key (fun c => match Mro.mroFuel (finalBases s) (s.reg.objs.length + 1) c with
+      | some l => l
+      | none => Mro.allbasesFuel (finalBases s) (fun _ => false) (s.reg.objs.length + 1) c) _ _ _ hd
+    have hfm : dget (finalMro s) i = some v := by unfold finalMro; exact hd
+    rw [hfm] at hb
+    simp only [Option.getD_some, this] at hb
+    have hor : b = i ∨ ∃ d, b ∈ finalBases s d := by
+      cases hm : Mro.mroFuel (finalBases s) (s.reg.objs.length + 1) i with
+      | some l => simp only [hm] at hb; exact mroFuel_mem' _ _ _ _ hm b hb
+      | none => simp only [hm] at hb; exact allbasesFuel_mem _ _ _ _ _ hb
+    rcases hor with h | ⟨d, hd'⟩
+    · exact Or.inl h
+    · exact Or.inr (finalBases_class hI hd')
 
 end Imports
